@@ -130,41 +130,27 @@ Theorem c14_bgzf_life_short_write_invariant :
 Proof. exact bw_life_short_write_invariant. Qed.
 Print Assumptions c14_bgzf_life_short_write_invariant.
 
-(* "whenever all calls including finish return Ok the destination holds the complete file",
-   for the whole life including Drop.  Full statement: *)
-Definition c14_bgzf_life_complete_full_statement : Prop :=
-  forall maxbuf frames, 0 < maxbuf -> forall ops s rs s',
-    bw_run maxbuf frames ops s = (rs, s') -> Forall (fun r => r = Ok) rs ->
-    In BTryFinish ops \/ In BFinish ops ->
-    exists p, sbytes s' = sbytes s ++ bw_ideal_out maxbuf frames ops ++ p /\
-              (p = [] \/ p = BGZF_EOF).
-(* It holds when the life ends with the consuming finish(self) ... *)
-Theorem c14_bgzf_finish_life_complete :
-  forall maxbuf frames, 0 < maxbuf -> forall ops s rs s',
-    bw_run maxbuf frames (ops ++ [BFinish]) s = (rs, s') -> Forall (fun r => r = Ok) rs ->
-    sbytes s' = sbytes s ++ bw_ideal_out maxbuf frames (ops ++ [BFinish]).
-Proof. exact bw_finish_life_complete. Qed.
-Print Assumptions c14_bgzf_finish_life_complete.
-(* ... and is refuted for `try_finish(); drop`: Drop calls try_finish again and the second EOF
-   block can be cut short by a failure nobody can observe (known finding
-   bgzf-second-eof-in-drop).  Witness: one 3-byte write, try_finish, drop; the sink accepts the
-   frame and the EOF block, then 5 bytes of the second EOF block, then fails. *)
+(* "whenever all calls including finish return Ok the destination holds the complete file", for
+   the whole life including Drop, whichever of try_finish() / finish(self) ends it.  (Before the
+   repair of bgzf-second-eof-in-drop this was refuted for `try_finish(); drop`: Drop wrote a
+   second EOF block whose failure nobody could observe.) *)
+Theorem c14_bgzf_finished_life_complete :
+  forall maxbuf frames, 0 < maxbuf -> forall ops o s rs s',
+    o = BTryFinish \/ o = BFinish ->
+    bw_run maxbuf frames (ops ++ [o]) s = (rs, s') -> Forall (fun r => r = Ok) rs ->
+    sbytes s' = sbytes s ++ bw_ideal_out maxbuf frames (ops ++ [o]).
+Proof. exact bw_finished_life_complete. Qed.
+Print Assumptions c14_bgzf_finished_life_complete.
+
 Definition wit_frame : list byte := map N.of_nat (seq 1 30).
-Definition wit_script : list fault := repeat Full 15 ++ [Short 5; Fail 2%N].
-Lemma c14_bgzf_life_complete_refuted : ~ c14_bgzf_life_complete_full_statement.
-Proof.
-  intros H.
-  specialize (H 100 [wit_frame] (Nat.lt_0_succ _) [BWriteAll 3; BTryFinish]
-                (mkSink [] wit_script 0)).
-  remember (bw_run 100 [wit_frame] [BWriteAll 3; BTryFinish] (mkSink [] wit_script 0)) as r eqn:Er.
-  vm_compute in Er. subst r.
-  specialize (H _ _ eq_refl).
-  destruct H as [p [Hb Hp]].
-  - repeat constructor.
-  - left. right. left. reflexivity.
-  - vm_compute in Hb. destruct Hp as [Hp|Hp]; subst p; discriminate Hb.
-Qed.
-Print Assumptions c14_bgzf_life_complete_refuted.
+
+(* the former counterexample: one 3-byte write, try_finish, drop; the sink accepts the frame and
+   the EOF block and would then fail -- Drop no longer touches it *)
+Example c14_example_try_finish_then_drop :
+  bw_run 100 [wit_frame] [BWriteAll 3; BTryFinish]
+         (mkSink [] (repeat Full 15 ++ [Short 5; Fail 2%N]) 0)
+  = ([Ok; Ok], mkSink (wit_frame ++ BGZF_EOF) [Short 5; Fail 2%N] 15).
+Proof. vm_compute. reflexivity. Qed.
 
 (* ----------------------------------------------------------------------------------------- *)
 (* non-vacuity *)
